@@ -346,6 +346,7 @@ func specOwnErrNil(v Item) bool {
 
 //@ func NewListItem
 //@ ensures [type]  result != nil && specIsListItem(result) && result.(*ListItem) != nil && fresh(result)
+//@ ensures [own]   fresh(result.(*ListItem).values)
 //@ ensures [limit] len(values) > MaxByteSize ==> result.(*ListItem).itemErr != nil
 //@ ensures [clean] result.(*ListItem).clean ==> result.(*ListItem).itemErr == nil
 //@ ensures [count] result.(*ListItem).itemErr == nil ==> len(result.(*ListItem).values) <= MaxByteSize
